@@ -57,7 +57,7 @@ SPECIAL_FORM_PREDS = ["isuniontype", "isoptionaltype", "isliteral", "isfinal", "
 # their domain); special-form predicates across every spelling pair
 SPELLING_FREE = list(ORIGIN_FAMILY) + ["issequencetype", "iscollectiontype"] + SPECIAL_FORM_PREDS
 UNION_SPELLING_FREE = SPECIAL_FORM_PREDS
-UNION_ORDER_FREE = SPECIAL_FORM_PREDS + ["isstdlibtype", "isbuiltintype", "isgeneric"]
+UNION_ORDER_FREE = SPECIAL_FORM_PREDS + ["isstdlibtype", "isbuiltintype"]
 
 
 def _issub(a, bases):
@@ -230,7 +230,7 @@ def check_object(desc, obj, kind):
             "isuniontype": iog in (tp.Union, types.UnionType) or obj is tp.Union,
             "isliteral": iog is tp.Literal or obj is tp.Literal
             or (isinstance(obj, tp.ForwardRef) and obj.__forward_arg__.startswith("Literal")),
-            "isfinal": og is tp.Final or obj is tp.Final,
+            "isfinal": iog is tp.Final or obj is tp.Final,
             "isclassvartype": og is tp.ClassVar or obj is tp.ClassVar,
             "isforwardref": isinstance(obj, tp.ForwardRef),
             "isnonetype": obj is None or obj is type(None),
@@ -248,7 +248,7 @@ def check_object(desc, obj, kind):
             o1, o2 = call2(fn, obj)
             if not same(o1, o2):
                 fail(fn, "unstable across calls", o2, o1)
-            if wrapped_inner and fn in ("isuniontype", "isliteral", "isoptionaltype"):
+            if wrapped_inner and fn in ("isuniontype", "isliteral", "isoptionaltype", "isfinal"):
                 continue          # ClassVar[<wrapper>]: how far origin() resolves is the code's choice
             if o1 != ("ok", bool(e)):
                 fail(fn, "disagrees with typing.get_origin/get_args", o1, e, extra_regions=pass_regions)
